@@ -196,11 +196,17 @@ Theorem C16_reference_inputs_hash_order_refuted :
 Proof. exact ref_inputs_hash_order_refuted. Qed.
 Print Assumptions C16_reference_inputs_hash_order_refuted.
 
-(* one build: set-like fields duplicate-free, required signers in first-insertion order; and the result does not depend
+(* one build (regular / native-script / Plutus-script inputs, mint, certificates and withdrawals with Plutus witnesses, extra datums):
+   set-like fields duplicate-free, required signers in first-insertion order, scripts and datums once; and the result does not depend
    on call order of inputs / collateral or on the iteration order of any hash container *)
 Theorem C16_build_sets : forall c o, tx_build c = Ok o ->
+  Forall (fun s => N.of_nat (length (ps_bytes s)) < two64) (t_plutus c) ->
   NoDup (x_inputs o) /\ NoDup (x_collateral o) /\ NoDup (x_refs o) /\ NoDup (x_signers o) /\
-  x_signers o = first_occ bytes_eqb (t_signers c) /\ NoDup (x_native o) /\ NoDup (x_data o).
+  x_signers o = first_occ bytes_eqb (t_signers c) /\ NoDup (x_native o) /\ NoDup (x_data o) /\
+  (forall k els, In (k, els) (x_plutus o) -> NoDup els) /\
+  (* every datum of a Plutus witness and every extra datum, whatever mixture of sources it came from, is in the
+     emitted witness set (exactly once, by the NoDup above) *)
+  (forall d, In d (t_wit_datums c ++ t_extra_datums c) -> In (d_emit d) (x_data o)).
 Proof. exact tx_build_sets. Qed.
 Print Assumptions C16_build_sets.
 Theorem C16_build_order_independent : forall c ins coll refs expl,
